@@ -258,7 +258,7 @@ def _groups(ctx, kind):
             check_e2e(ctx, padded, "%d padded %s lines at ticks %r" % (n, kind, ticks), sync=sync)
 
 
-NEAR_MISS = ("2 = S 64 5", "2 = S 0 1", "2 = N 8 0", "2 = E two words", "", "garbage", "2 = S 2", "2 = N 0", '2 = E "section a"')
+NEAR_MISS = ("2 = S 64 5", "2 = S 0 1", "2 = N 8 0", "2 = E two words", "", "garbage", "2 = S 2", "2 = N 0", '2 = E "section a"', "{", "}", "50% x")
 
 
 def _foreign_digits(ctx):
